@@ -14,7 +14,11 @@
          - nothing otherwise.
        The model identifies a certificate file with the label of its content: the hash
        in h_tls, "DEFAULT" for the default certificate (the converter stores the default
-       file and hash when a secret is missing, invalid or forbidden, see tls_of).
+       file and hash when a secret is missing, invalid or forbidden, see tls_of).  The code
+       compares file names (<ns>_<name>.pem per secret), so a secret is never taken for
+       the default certificate unless it is the --default-ssl-certificate itself; in the
+       model no secret has the label "DEFAULT".  HasTLS = the host has a tls entry
+       (ssl-always-add-https, ssl-passthrough are annotations, outside the subset).
    (2) sni_select: TRUSTED transcription of how HAProxy picks the certificate for an SNI
        name on a bind with a crt-list (ssl_sock_switchctx_cbk): the line with that exact
        filter (negative filters "!..." never select), else the line whose filter is "*"
